@@ -339,7 +339,10 @@ done:
 	if !truncated {
 		for iter.Next() {
 			object := iter.Key().(string)
-			if matched := prefix.Match(object, &match); matched && !match.CommonPrefix {
+			// Anything that still has to be reported truncates the page: another
+			// upload, or a common prefix that has not been returned yet (the
+			// next page then starts at the key that produces it).
+			if matched := prefix.Match(object, &match); matched && (!match.CommonPrefix || !seenPrefixes[match.MatchedPart]) {
 				truncated = true
 
 				// This is not especially defensive; it assumes the rest of the code works
